@@ -133,7 +133,7 @@ func (c *Ctx) sites(f *ssa.Function, env Env, chk *GCheck, depth int) []gsite {
 				if ev := errResult(x); ev != nil {
 					out = append(out, gsite{cut: nilTestEdges(ev, true), okVal: ev, instr: x})
 				} else if isBoolType(x.Type()) {
-					s := gsite{cut: boolEdges(x, boolWant), instr: x}
+					s := gsite{cut: boolEdgesT(x, boolWant), instr: x}
 					if boolWant {
 						s.okVal = x
 					}
@@ -141,7 +141,7 @@ func (c *Ctx) sites(f *ssa.Function, env Env, chk *GCheck, depth int) []gsite {
 				} else if x.Call.Signature().Results().Len() == 2 && isBoolType(x.Call.Signature().Results().At(1).Type()) {
 					// (value, ok) style
 					if okv := extractOf(x, 1); okv != nil {
-						out = append(out, gsite{cut: boolEdges(okv, boolWant), instr: x})
+						out = append(out, gsite{cut: boolEdgesT(okv, boolWant), instr: x})
 					}
 				}
 			case *ssa.BinOp:
@@ -149,18 +149,18 @@ func (c *Ctx) sites(f *ssa.Function, env Env, chk *GCheck, depth int) []gsite {
 					continue
 				}
 				if m, onTrue := chk.MatchCmp(c, x, env); m {
-					out = append(out, gsite{cut: boolEdges(x, onTrue), instr: x})
+					out = append(out, gsite{cut: boolEdgesT(x, onTrue), instr: x})
 				}
 			case *ssa.TypeAssert:
 				if chk.MatchOK != nil && x.CommaOk && chk.MatchOK(c, x, env) {
 					if okv := extractOf2(x, 1); okv != nil {
-						out = append(out, gsite{cut: boolEdges(okv, !chk.BoolFalse), instr: x})
+						out = append(out, gsite{cut: boolEdgesT(okv, !chk.BoolFalse), instr: x})
 					}
 				}
 			case *ssa.Lookup:
 				if chk.MatchOK != nil && x.CommaOk && chk.MatchOK(c, x, env) {
 					if okv := extractOf2(x, 1); okv != nil {
-						out = append(out, gsite{cut: boolEdges(okv, !chk.BoolFalse), instr: x})
+						out = append(out, gsite{cut: boolEdgesT(okv, !chk.BoolFalse), instr: x})
 					}
 				}
 			}
@@ -182,9 +182,9 @@ func (c *Ctx) pruned(f *ssa.Function, env Env) map[edge]bool {
 		if iff, ok := b.Instrs[len(b.Instrs)-1].(*ssa.If); ok {
 			switch c.Path(iff.Cond, env) {
 			case "true":
-				out[edge{b, b.Succs[1]}] = true
+				out[edge{from: b, to: b.Succs[1]}] = true
 			case "false":
-				out[edge{b, b.Succs[0]}] = true
+				out[edge{from: b, to: b.Succs[0]}] = true
 			}
 		}
 	}
@@ -437,20 +437,43 @@ func pathAny() func(string) bool { return nil }
 func cmpReject(name string, rejectOp token.Token, lhs, rhs func(string) bool) *GCheck {
 	return &GCheck{Name: name, MatchCmp: func(c *Ctx, b *ssa.BinOp, env Env) (bool, bool) {
 		l, r := c.Path(b.X, env), c.Path(b.Y, env)
-		op := b.Op
-		if !(lhs(l) && rhs(r)) {
-			if lhs(r) && rhs(l) {
-				op = flipOp(op)
-			} else {
-				return false, false
+		type cand struct {
+			l, r string
+			op   token.Token
+		}
+		cands := []cand{{l, r, b.Op}, {r, l, flipOp(b.Op)}}
+		// lengths are never negative: len(x) > 0 is len(x) != 0, len(x) <= 0 is len(x) == 0, and likewise
+		// len(x) >= 1 / len(x) < 1
+		for _, cd := range cands[:2] {
+			if !strings.HasPrefix(cd.l, "len(") {
+				continue
+			}
+			switch {
+			case cd.r == "0" && cd.op == token.GTR:
+				cands = append(cands, cand{cd.l, "0", token.NEQ})
+			case cd.r == "0" && cd.op == token.LEQ:
+				cands = append(cands, cand{cd.l, "0", token.EQL})
+			case cd.r == "1" && cd.op == token.GEQ:
+				cands = append(cands, cand{cd.l, "0", token.NEQ}, cand{cd.l, "0", token.GTR})
+			case cd.r == "1" && cd.op == token.LSS:
+				cands = append(cands, cand{cd.l, "0", token.EQL}, cand{cd.l, "0", token.LEQ})
+			case cd.r == "0" && cd.op == token.NEQ:
+				cands = append(cands, cand{cd.l, "0", token.GTR})
+			case cd.r == "0" && cd.op == token.EQL:
+				cands = append(cands, cand{cd.l, "0", token.LEQ})
 			}
 		}
-		// now relation is  L op R  with L matching lhs
-		if op == rejectOp {
-			return true, false // success when the rejecting relation is false
-		}
-		if op == negOp(rejectOp) {
-			return true, true
+		for _, cd := range cands {
+			if !(lhs(cd.l) && rhs(cd.r)) {
+				continue
+			}
+			// relation is  L op R  with L matching lhs
+			if cd.op == rejectOp {
+				return true, false // success when the rejecting relation is false
+			}
+			if cd.op == negOp(rejectOp) {
+				return true, true
+			}
 		}
 		return false, false
 	}}
@@ -524,7 +547,7 @@ func (c *Ctx) loopForall(f *ssa.Function, l *loop, cut map[edge]bool, what strin
 		for b := range seen {
 			if l.blocks[b] {
 				for _, s := range b.Succs {
-					if s == l.header && !cut[edge{b, s}] {
+					if s == l.header && !cut[edge{from: b, to: s}] {
 						w := c.witnessPath(seen, b)
 						w = append([]string{fmt.Sprintf("in %s: loop at %s can start its next iteration without crossing a success edge of [%s] — not every element is checked", short(f.String()), c.pos(firstPos(l.header)), what)}, w...)
 						return false, w
